@@ -121,6 +121,8 @@ PROPS = {
             {"stream": "tdlive", "n_quick": 300, "n_thorough": 6000, "timeout_quick": 900, "timeout_thorough": 6000},
             # "over plain, TLS and StartTLS connections": binds inside upgraded sessions, also ones that were idle for 11 s (corpus)
             {"stream": "c13", "n_quick": 4, "n_thorough": 60, "timeout_quick": 900, "timeout_thorough": 6000},
+            # binds while other clients add / modify / delete and the application calls Set*: every bind is answered
+            {"stream": "tdrace", "n_quick": 2, "n_thorough": 20, "timeout_quick": 900, "timeout_thorough": 6000},
         ],
         "trusted": BER_TRUST,
         "assumptions": ["plain / TLS / StartTLS transports deliver the same bind request to the handler (C13, C18); this check drives the handler in-process through the directory's own mux"],
